@@ -231,7 +231,9 @@ impl Outline {
                 let ix = ix as u16 + first_ix;
                 point.prev_ix = prev_ix;
                 prev_ix = ix;
-                point.next_ix = ix + 1;
+                // The last point may have index u16::MAX; its next index
+                // is replaced below.
+                point.next_ix = ix.wrapping_add(1);
             }
             points.last_mut().unwrap().next_ix = first_ix;
         }
